@@ -131,6 +131,9 @@ def judge_scalar(op, a, b, got):
         return None
     if isinstance(got, int) and x.denominator == 1:
         return 'expected %d' % int(x)
+    if op in '+-*' and all(v is None or isinstance(v, (int, bool)) for v in (a, b)):
+        # integers, logicals and blanks under + - *: "the exact arithmetic on those values" is an integer and nothing has to be rounded
+        return 'expected exactly %d (both operands are integers, logicals or blank)' % int(x)
     if abs(Fraction(got) - x) <= Fraction(1, 10 ** 9) * max(1, abs(x)):
         return None
     return 'expected %r' % float(x)
